@@ -711,7 +711,11 @@ class SVG:
 
         new_fill = to_element(gradient)
         # TODO normalize stop elements too
-        new_fill.extend(copy.deepcopy(stop) for stop in fill_el)
+        for stop in fill_el:
+            new_stop = copy.deepcopy(stop)
+            # strip stop id if present; useless and no longer unique
+            _del_attrs(new_stop, "id")
+            new_fill.append(new_stop)
 
         self._apply_gradient_translation(new_fill)
 
